@@ -55,14 +55,18 @@ def decRefuses (d : Option Nat) (n : Nat) : Bool :=
 
 def handleLim (case obs : List String) : String × String :=
   match case with
-  | [side, _mode, e, d, rq, rs] =>
+  | [side, mode, e, d, rq, rs] =>
     match optNat? (if e = "-" then "none" else e), optNat? (if d = "-" then "none" else d), nat? rq, nat? rs with
     | some e, some d, some rq, some rs =>
       if side = "lim.srv" then
-        let model := if decRefuses d rq then "11 h0" else if encRefuses e rs then "11 h1" else "0 h1"
+        -- unary / server-streaming decode the request before the handler runs; with a streaming
+        -- request the handler runs and meets the refusal on its incoming stream
+        let early := mode.endsWith "u" || mode.endsWith "s"
+        let refused := if early then "11 h0 m0" else "11 h1 m0"
+        let model := if decRefuses d rq then refused else if encRefuses e rs then "11 h1 m1" else "0 h1 m1"
         -- spec, stated directly: received iff within the decoding limit (4 MiB default); sent iff within the encoding limit
         let dl := d.getD (4 * 1024 * 1024)
-        let expected := if rq > dl then "11 h0" else if (match e with | some l => decide (rs > l) | none => false) then "11 h1" else "0 h1"
+        let expected := if rq > dl then refused else if (match e with | some l => decide (rs > l) | none => false) then "11 h1 m1" else "0 h1 m1"
         (model, verdict [("limits-enforced-as-configured", String.intercalate " " obs == expected)])
       else
         let model := if encRefuses e rq then "err11 s0" else if decRefuses d rs then "err11 s1" else "ok s1"
